@@ -103,6 +103,12 @@ def heap_havoc(ex: Any, body: List[ast.stmt], st: State, hint: Any = None) -> St
                                                         {a, "_" + a} for a in attrs) or key in ex.loop_extra_havoc
         if hit:
             st.heap[key] = z3.Const(fresh_name(f"H<{key}>"), cur.sort())
+    # allocation: the iterations before the arbitrary one may have allocated any number of objects; the allocation pointer
+    # at the head of the arbitrary iteration (and at the exit) is a fresh value not below the current one
+    hb = z3.Int(fresh_name("abase"))
+    st.pc.append(hb >= st.alloc_ptr())
+    st.abase = hb
+    st.nalloc = 0
     # components that are first read inside / after the loop: unknown as well (State.harr consults the rule)
     rid = fresh_name("hv").replace("!", "_")
     attr_names = set(attrs)
@@ -180,6 +186,9 @@ def exec_for(ex: Any, s: ast.For, st: State) -> Iterator[Tuple[str, Any, State]]
         if not invs:
             raise Unsupported(f"loop at {ex.fi.file}:{s.lineno} over symbolic {it!r} has no invariant "
                               f"(ordinal {loop_ordinal(ex, s, st1)})")
+        if isinstance(it, VPy) and isinstance(it.obj, range) and len(it.obj) <= 64:
+            # a loop over a concrete range under an invariant: the range as a list object of known content
+            it, st1 = ex.new_list(T.Int, "seq", st1, [VInt(k) for k in it.obj])
         if not isinstance(it, VList) or it.view != "seq":
             raise Unsupported(f"invariant loop over {it!r}")
         yield from invariant_loop(ex, s, st1, invs, it)
@@ -252,6 +261,9 @@ def invariant_loop(ex: Any, s: Any, st: State, invs: List[Any], it: Optional[VLi
             if isinstance(x, (VRef, VEnum, VUnion)):
                 st_body = st_body.assume(ex.type_constraint(x))
             st_body = ex.assign_target(s.target, x, st_body)
+            if isinstance(s.target, ast.Name):
+                # the position of the current element, for invariants of loops nested in this one (`i_<loop variable>`)
+                st_body = st_body.bind("i_" + s.target.id, idx)
             yield from _body_paths(ex, s, st_body, invs, {"i": VInt(idx.term + 1), "it": it}, where, covered)
         st_exit = sti.assume(idx.term >= n).decide("exit")
     else:
@@ -290,7 +302,8 @@ def _loop_frame(ex: Any, st_body: State, st2: State, where: str, covered: Any) -
             continue
         r = z3.Int(fresh_name("lf"))
         from .state import ALLOC0
-        ex.oblige(st2, "frame", f"loop-body-leaves:{key}", z3.ForAll([r], z3.Select(arr, r) == z3.Select(a0, r)),
+        ex.oblige(st2, "frame", f"loop-body-leaves:{key}",
+                  z3.ForAll([r], z3.Implies(r < st_body.alloc_ptr(), z3.Select(arr, r) == z3.Select(a0, r))),
                   tags=list(ex.contract.tags), where=where,
                   note="the loop body changes a heap component that the loop havoc does not cover")
 
